@@ -36,14 +36,16 @@ type scenario struct {
 }
 
 type env struct {
-	mu      sync.Mutex
-	events  []map[string]any
-	nextID  int
-	ops     []string // server-side ops still to apply to /verif/main streams
-	conns   []net.Conn
-	gate    chan struct{} // closed = dialing allowed
-	reached chan string
-	lis     *bufconn.Listener
+	mu       sync.Mutex
+	events   []map[string]any
+	nextID   int
+	ops      []string // server-side ops still to apply to /verif/main streams
+	conns    []net.Conn
+	killed   bool
+	timeouts int
+	gate     chan struct{} // closed = dialing allowed
+	reached  chan string
+	lis      *bufconn.Listener
 }
 
 func (e *env) log(ev map[string]any) {
@@ -155,8 +157,16 @@ func (e *env) serveConn(c net.Conn) {
 		case *http2.MetaHeadersFrame:
 			id := f.StreamID
 			if rawh2.Field(f, ":path") != "/verif/main" {
-				e.log(map[string]any{"ev": "srv", "op": "blocker-hang"})
-				continue // the blocker stream is never answered
+				e.mu.Lock()
+				killed := e.killed
+				e.mu.Unlock()
+				if killed { // a retried blocker must not take the stream slot of the new connection
+					e.log(map[string]any{"ev": "srv", "op": "blocker-fail"})
+					p.WriteHeaders(id, true, ":status", "200", "content-type", "application/grpc", "grpc-status", "13", "grpc-message", "verif-blocker")
+				} else {
+					e.log(map[string]any{"ev": "srv", "op": "blocker-hang"})
+				}
+				continue
 			}
 			e.mu.Lock()
 			op := "success"
@@ -192,6 +202,7 @@ func (e *env) kill() {
 	e.mu.Lock()
 	cs := e.conns
 	e.conns = nil
+	e.killed = true
 	e.mu.Unlock()
 	for _, c := range cs {
 		c.Close()
@@ -210,19 +221,38 @@ func (e *env) dial(ctx context.Context, _ string) (net.Conn, error) {
 	return e.lis.DialContext(ctx)
 }
 
-const serviceConfig = `{"loadBalancingConfig":[{"verif_c23":{}}],"methodConfig":[{"name":[{}],"retryPolicy":{"maxAttempts":4,"initialBackoff":"0.01s","maxBackoff":"0.1s","backoffMultiplier":1.0,"retryableStatusCodes":["UNAVAILABLE"]}}]}`
+// await waits (in virtual time) for an RPC goroutine; an RPC that does not end within 10 virtual
+// minutes is cancelled and the scenario is marked as not completed (machinery, never a verdict).
+func (e *env) await(done chan struct{}, cancel func(), who string) {
+	for i := 0; i < 2; i++ {
+		select {
+		case <-done:
+			return
+		case <-time.After(10 * time.Minute):
+			e.log(map[string]any{"ev": "note", "msg": "timeout waiting for " + who})
+			e.mu.Lock()
+			e.timeouts++
+			e.mu.Unlock()
+			cancel()
+		}
+	}
+	e.log(map[string]any{"ev": "note", "msg": "RPC goroutine " + who + " does not end after cancellation"})
+}
+
+const serviceConfig = `{"loadBalancingConfig":[{"verif_c23":{}}],"methodConfig":[{"name":[{"service":"verif","method":"main"}],"retryPolicy":{"maxAttempts":4,"initialBackoff":"0.01s","maxBackoff":"0.1s","backoffMultiplier":1.0,"retryableStatusCodes":["UNAVAILABLE"]}}]}`
 
 var streamDesc = &grpc.StreamDesc{StreamName: "main", ServerStreams: true, ClientStreams: true}
 
 // ---------------------------------------------------------------- one scenario (inside a bubble)
 
-func runScenario(scn *scenario) []map[string]any {
+func runScenario(scn *scenario) (evs []map[string]any, timeouts int) {
 	e := &env{gate: make(chan struct{}), reached: make(chan string, 8), lis: bufconn.Listen(1 << 20)}
 	close(e.gate)
 	cur = e
 	defer func() {
 		if x := recover(); x != nil {
 			e.log(map[string]any{"ev": "panic", "msg": fmt.Sprint(x)})
+			evs, timeouts = e.events, e.timeouts
 		}
 	}()
 	pre, final := scn.Script[0], scn.Script[len(scn.Script)-1]
@@ -234,7 +264,7 @@ func runScenario(scn *scenario) []map[string]any {
 		grpc.WithDefaultCallOptions(grpc.ForceCodec(rawh2.RawCodec{})))
 	if err != nil {
 		e.log(map[string]any{"ev": "note", "msg": "NewClient: " + err.Error()})
-		return e.events
+		return e.events, 1
 	}
 	cc.Connect()
 	synctest.Wait()
@@ -317,13 +347,13 @@ func runScenario(scn *scenario) []map[string]any {
 		case <-mdone:
 		}
 	}
-	<-mdone
+	e.await(mdone, cancel, "main")
 	cancel()
 	synctest.Wait()
 	e.log(map[string]any{"ev": "rpc_end", "rpc": "main"})
 	if bcancel != nil {
 		bcancel()
-		<-bdone
+		e.await(bdone, bcancel, "blocker")
 		synctest.Wait()
 		e.log(map[string]any{"ev": "rpc_end", "rpc": "blocker"})
 	}
@@ -334,7 +364,7 @@ func runScenario(scn *scenario) []map[string]any {
 	e.log(map[string]any{"ev": "end"})
 	e.mu.Lock()
 	defer e.mu.Unlock()
-	return e.events
+	return e.events, e.timeouts
 }
 
 // TestVerifC23Scenarios runs every scenario of VERIF_BEHAVIOURS against a real ClientConn.
@@ -364,7 +394,11 @@ func TestVerifC23Scenarios(t *testing.T) {
 					ev = append(ev, map[string]any{"ev": "note", "msg": fmt.Sprintf("bubble panic: %v", x)})
 				}
 			}()
-			synctest.Test(t, func(*testing.T) { ev = runScenario(&scn) })
+			synctest.Test(t, func(*testing.T) {
+				var n int
+				ev, n = runScenario(&scn)
+				failed += n
+			})
 		}()
 		tr.Emit(map[string]any{"ev": "reset", "b": i})
 		for _, x := range ev {
